@@ -40,10 +40,18 @@ RULE = (
     'one ulp / one count under a wide tolerance, both next to each other}, two ties in one level, every entry '
     'twice, all coordinate values equal, NaN / +-inf readings at the same positions and at a tie, with '
     'min_n_points aimed at the length of the affected run), followed by collapse_plateaus '
-    'on what was returned and filter_in_phase on the collapsed values, plus direct '
+    'on what was returned - along the dimension-coordinate AND along the other per-point coordinates the plateaus '
+    'carry (every shard: the enumerated matrix 6 dtype kinds incl. int32 / variances x 8 orders of the values inside '
+    'a plateau: random, descending, extreme at an interior point, maximum first / minimum last, all negative, '
+    'constant, ascending; the default coord="time" as an auxiliary coordinate) - and filter_in_phase on the '
+    'collapsed values; every shard also runs the usage sequences: all-keyword calls, numpy / IntEnum / (str, Enum) '
+    'stand-ins for min_n_points / plateau_dim / coord, data dimensions named like names used inside the '
+    'implementation, variances on data / tolerance / dimension-coordinate, per-point / scalar / per-plateau masks '
+    '(mask-aware mean), repeated and fed-back calls, calls after refused ones, display / copies between calls; plus direct '
     'filter_in_phase calls (frequencies 0, tiny, n*ref, ref/n perturbed by {0,0.1,0.49,2,10} x '
     'rtol, either sign of f and ref, float64/float32/int64) and direct collapse_plateaus calls '
-    'on hand-built bins; distinct = distinct (function, dtypes, units class, tolerance class, '
+    'on hand-built bins (half of them reworked: coordinate unsorted inside the bins, second coordinate, bins out of '
+    'buffer order, unused points, masks, variances); distinct = distinct (function, dtypes, units class, tolerance class, '
     'min_n class, size band) signatures; none is counted trivial'
 )
 ASSUMPTIONS = [
@@ -66,6 +74,14 @@ ASSUMPTIONS = [
     'index by the code - the documentation is silent on it, counted as ambiguous, not judged',
     'collapse_plateaus with coord equal to the plateau dimension cannot return a [low, high] pair per plateau '
     '(out of domain, counted)',
+    'collapse_plateaus: "coord" may name any per-point coordinate of the plateaus of float / int / datetime dtype; '
+    'the interval has to contain the coordinate values of ALL points of the plateau (masked ones included), in '
+    'whatever order they occur; coordinates of other dtypes (string, bool, vector) are refused by the code (counted)',
+    'the mean of a plateau with masked points is the mean of its unmasked points (scipp: masked elements are '
+    'excluded from reductions); a plateau whose points are all masked or that holds a non-finite reading is not judged',
+    'where the points carry variances and the result carries variances, the variance of the mean of m points is '
+    'sum(var_i)/m^2 (exact first-order propagation of a linear form); variances of interval edges are not judged',
+    'a dimension-coordinate with variances is refused by find_plateaus (VariancesError, counted, not judged)',
 ]
 TECHNIQUE = ('runtime monitors (sys.monitoring) on the returns of find_plateaus, collapse_plateaus, '
              'filter_in_phase, direct and chained; segmentation / interval / in-phase reference models')
@@ -98,6 +114,10 @@ FINDING_PREDICATES: dict = {
 }
 
 Y_KINDS = ('float64', 'float32', 'int64')
+# literal dimension / coordinate names used inside the package's sources and by scipp's binning (caller data may
+# use any of them)
+INTERNAL_DIMS = ('plateau', 'event', 'row', 'group', 'range', 'dim_0', 'dim', 'bin', 'vertex', 'slit', 'cutout',
+                 'rotation', 'detector_number', 'frequency', 'coord', 'begin', 'end', 'data', '')
 X_KINDS = ('float64', 'float32', 'int64', 'datetime64')
 
 
@@ -163,11 +183,18 @@ class Diag:
 def judge_find(ctx, args, res, exc, diag, origin):
     data, atol, mn = args.get('data'), args.get('atol'), args.get('min_n_points')
     pdim = args.get('plateau_dim', 'plateau')
+    pdim_form = 'str'
     # ---- domain of the model
     try:
         if not isinstance(data, sc.DataArray) or data.ndim != 1 or data.bins is not None:
             ctx.count('find.out_of_domain:not_1d_dense')
             return
+        if not isinstance(pdim, str):
+            ctx.count('find.out_of_domain:plateau_dim is not a str')
+            return
+        if type(pdim) is not str:
+            pdim_form = 'str_subclass'
+            pdim = str.__str__(pdim)    # the characters of the name (np.str_, (str, Enum) member)
         dim = data.dim
         if dim not in data.coords or data.coords[dim].dims != (dim,) or \
                 data.coords[dim].shape != data.shape:
@@ -207,6 +234,14 @@ def judge_find(ctx, args, res, exc, diag, origin):
             ctx.count('find.out_of_domain:unit_not_in_table')
             return
         unit_cls = 'same' if factor == 1 else 'scaled'
+        if data.coords[dim].variances is not None:
+            # a slope with an uncertainty cannot be compared with the tolerance; the documentation only says that
+            # the variances of the DATA are ignored
+            if exc is not None and type(exc).__name__ == 'VariancesError':
+                ctx.count('find.refused:dimension-coordinate with variances (VariancesError)')
+            else:
+                ctx.count('find.out_of_domain:dimension-coordinate with variances, accepted')
+            return
     except Exception:  # noqa: BLE001
         ctx.oracle_error('C19 find_plateaus domain')
         return
@@ -285,6 +320,16 @@ def judge_find(ctx, args, res, exc, diag, origin):
     ctx.case(('find', yk, xk, unit_cls, 'tie' if tie else ('ulp' if near else 'off'),
               _min_cls(min_n, n, mn), _size_band(n), len(runs) > 0, odd['cls'], odd['finite']))
     _forced_find(ctx, runs, n, min_n, mn, tie, s, thr, xk, factor)
+    if pdim_form != 'str':
+        ctx.hit('plateau_dim given as a str subclass (np.str_ / (str, Enum))')
+    if data.variances is not None:
+        ctx.hit('find: data with variances (ignored for the comparison)')
+    if atol.variances is not None:
+        ctx.hit('find: atol with a variance')
+    if len([1 for k_, v_ in data.coords.items() if k_ != dim and v_.dims == (dim,)]):
+        ctx.hit('find: the dimension-coordinate is not the only per-point coordinate')
+    if dim in INTERNAL_DIMS:
+        ctx.hit('find: data dimension named like a name used inside scipp / the package')
     _forced_ties(ctx, odd, runs, n, min_n, xk)
 
     # locate observed bins in the input (possible when the coordinate is strictly ascending)
@@ -492,7 +537,8 @@ def _forced_ties(ctx, odd, runs, n, min_n, xk):
 
 
 def _min_cls(min_n, n, mn):
-    form = 'var' if isinstance(mn, sc.Variable) else ('npint' if isinstance(mn, np.integer) else 'int')
+    form = 'var' if isinstance(mn, sc.Variable) else ('npint' if isinstance(mn, np.integer) else
+                                                       'int' if type(mn) is int else 'int_subclass')
     if min_n <= 1:
         return form + ':1'
     if min_n >= n:
@@ -521,6 +567,10 @@ def _forced_find(ctx, runs, n, min_n, mn, tie, s, thr, xk, factor):
         ctx.hit('min_n_points = n')
     if isinstance(mn, sc.Variable):
         ctx.hit('min_n_points as Variable')
+    elif isinstance(mn, np.integer):
+        ctx.hit('min_n_points as numpy integer (' + type(mn).__name__ + ')')
+    elif type(mn) is not int:
+        ctx.hit('min_n_points as an int subclass (IntEnum member)')
     if any(b - a == min_n for a, b in runs):
         ctx.hit('run of exactly min_n_points points')
     if any(b - a == 1 for a, b in runs):
@@ -537,12 +587,34 @@ def _forced_find(ctx, runs, n, min_n, mn, tie, s, thr, xk, factor):
 
 
 # ------------------------------------------------------ collapse_plateaus ------
+# The interval is formed for ANY per-point coordinate of the plateaus the caller names (``coord=``): the
+# dimension-coordinate find_plateaus checked for order, or any other one (phase, temperature, a second clock)
+# whose values are in no particular order inside a plateau.  "Contains all of its points" does not depend on
+# the order of the points.
+COLLAPSE_X_KINDS = (*X_KINDS, 'int32')
+
+
+def _event_mask(buf):
+    """Union of the masks of the points (None = a mask that is neither per-point nor scalar)."""
+    m = np.zeros(buf.shape, dtype=bool)
+    for _name, mk in buf.masks.items():
+        if mk.bins is not None or mk.dims not in ((), buf.dims):
+            return None
+        m = m | np.asarray(mk.values, dtype=bool)
+    return m
+
+
 def judge_collapse(ctx, args, res, exc, diag, origin):
     pl, cname = args.get('plateaus'), args.get('coord', 'time')
     try:
         if not isinstance(pl, sc.DataArray) or pl.bins is None or pl.ndim != 1:
             ctx.count('collapse.out_of_domain:not_1d_binned')
             return
+        if not isinstance(cname, str):
+            ctx.count('collapse.out_of_domain:coord is not a str')
+            return
+        cform = 'str' if type(cname) is str else 'str_subclass'
+        cname = str.__str__(cname)   # the characters of the name (an (str, Enum) member prints differently)
         c = pl.bins.constituents
         buf = c['data']
         begin = np.asarray(c['begin'].values).astype(np.int64)
@@ -553,39 +625,66 @@ def judge_collapse(ctx, args, res, exc, diag, origin):
             return
         ec = buf.coords[cname]
         xk, yk = _dtype_name(ec), _dtype_name(buf)
-        if xk not in X_KINDS or yk not in Y_KINDS:
-            ctx.count('collapse.out_of_domain:dtype')
+        if xk not in COLLAPSE_X_KINDS or yk not in Y_KINDS:
+            ctx.count('collapse.out_of_domain:dtype' + ('' if exc is None else f' (refused: {type(exc).__name__})'))
             return
         if cname == pl.dim:
             # the result cannot hold a [low, high] pair per plateau under the name of its own dimension
             ctx.count('collapse.out_of_domain:coord named like the plateau dimension')
             return
-        if len(buf.masks) or len(pl.masks):
-            ctx.count('collapse.out_of_domain:masks')  # mean of masked points is not defined by the property
+        # masked points are excluded from the mean (scipp's definition of a reduction over masked data); they
+        # still are points of the plateau: the interval has to contain them
+        emask = _event_mask(buf)
+        if emask is None or any(mk.bins is not None or mk.dims not in ((), pl.dims) for mk in pl.masks.values()):
+            ctx.count('collapse.out_of_domain:mask that is neither per-point / per-plateau nor scalar')
             return
+        mask_cls = ('both' if len(buf.masks) and len(pl.masks) else 'event' if len(buf.masks)
+                    else 'bin' if len(pl.masks) else 'none')
         if np.any(end <= begin):
             ctx.count('collapse.out_of_domain:empty_bin')
             return
         px = np.asarray(ec.values)
         py = np.asarray(buf.values)
-        if not (_finite(px) and _finite(py)):
+        used = np.zeros(len(py), dtype=bool)
+        for b0, e0 in zip(begin.tolist(), end.tolist(), strict=True):
+            used[b0:e0] = True
+        # only the points that belong to a plateau have to be numbers; a plateau that holds a NaN / infinite
+        # reading or coordinate value is not judged, the others are
+        okp = np.ones(len(py), dtype=bool)
+        for a_ in (px, py):
+            if a_.dtype.kind == 'f':
+                okp &= np.isfinite(a_)
+        fin = [bool(np.all(okp[b0:e0])) for b0, e0 in zip(begin.tolist(), end.tolist(), strict=True)]
+        if len(fin) and not any(fin):
             ctx.count('collapse.out_of_domain:non_finite')
             return
+        used &= okp
         pxn = M.as_number_array(px)
-        if xk in ('int64', 'datetime64') and len(pxn) and np.max(pxn) == np.iinfo(np.int64).max:
+        if xk in ('int64', 'datetime64', 'int32') and np.any(used) and \
+                np.max(pxn[used]) == np.iinfo(np.int32 if xk == 'int32' else np.int64).max:
             ctx.count('collapse.out_of_domain:int64_max_has_no_upper_neighbour')
             return
-        if yk == 'int64' and len(py) and np.max(np.abs(py)) >= 2**52:
+        if yk == 'int64' and np.any(used) and np.max(np.abs(py[used])) >= 2**52:
             ctx.count('collapse.out_of_domain:integer_magnitude')
             return
+        pv = None if buf.variances is None else np.asarray(buf.variances)
+        role = 'dimension' if cname == buf.dim else 'auxiliary'
+        with np.errstate(invalid='ignore'):
+            unsorted = [bool(np.any(pxn[b0 + 1:e0] < pxn[b0:e0 - 1]))
+                        for b0, e0 in zip(begin.tolist(), end.tolist(), strict=True)]
+        unsorted = [u_ and f_ for u_, f_ in zip(unsorted, fin, strict=True)]
+        order = 'unsorted' if any(unsorted) else 'ascending'
     except Exception:  # noqa: BLE001
         ctx.oracle_error('C19 collapse_plateaus domain')
         return
     nb = len(begin)
     case = {'function': 'collapse_plateaus', 'origin': origin, 'coord': cname, 'n_plateaus': nb,
-            'coord_dtype': xk, 'coord_unit': str(ec.unit), 'data_dtype': yk,
+            'coord_dtype': xk, 'coord_unit': str(ec.unit), 'data_dtype': yk, 'coord_role': role,
+            'order_within_plateaus': order, 'masks': mask_cls,
+            'coord_has_variances': ec.variances is not None, 'data_has_variances': pv is not None,
             'sizes': (end - begin)[:30].tolist()}
-    keys = {'function': 'collapse_plateaus', 'coord_dtype': xk, 'data_dtype': yk}
+    keys = {'function': 'collapse_plateaus', 'coord_dtype': xk, 'data_dtype': yk, 'coord_role': role,
+            'order': order, 'masks': mask_cls}
     if exc is not None:
         ctx.violation('collapse_unexpected_exception',
                       f'collapse_plateaus raised {type(exc).__name__}: {str(exc)[:200]}', case,
@@ -593,8 +692,19 @@ def judge_collapse(ctx, args, res, exc, diag, origin):
         return
     ctx.event('collapse_plateaus')
     ctx.case(('collapse', yk, xk, str(ec.unit), 'n=0' if nb == 0 else ('n=1' if nb == 1 else 'n>1'),
-              'single' if nb and np.min(end - begin) == 1 else 'multi'))
+              'single' if nb and np.min(end - begin) == 1 else 'multi', role, order, mask_cls,
+              ec.variances is not None, pv is not None))
     ctx.hit('collapse coordinate ' + xk)
+    _forced_collapse(ctx, nb, begin, end, pxn, xk, role, unsorted, mask_cls, ec, pv, cform, origin)
+    try:    # layout of the bins as they were passed (the snapshot judged here is a re-packed copy)
+        c0 = args['passed object'].bins.constituents
+        b0, e0 = np.asarray(c0['begin'].values), np.asarray(c0['end'].values)
+        if nb > 1 and np.any(b0[1:] < b0[:-1]):
+            ctx.hit('collapse: plateaus not in buffer order')
+        if nb and (np.min(b0) > 0 or np.sum(e0 - b0) < c0['data'].sizes[c0['dim']]):
+            ctx.hit('collapse: points in the buffer that belong to no plateau')
+    except Exception:  # noqa: BLE001
+        pass
     # ---- structure: one element per plateau, [low, high] pair per plateau
     try:
         ok = isinstance(res, sc.DataArray) and res.bins is None and tuple(res.dims) == tuple(pl.dims) \
@@ -606,6 +716,7 @@ def judge_collapse(ctx, args, res, exc, diag, origin):
             low = np.asarray(edges[cname, 0].values)
             high = np.asarray(edges[cname, 1].values)
             got = np.asarray(res.values)
+            gotv = None if res.variances is None else np.asarray(res.variances)
     except Exception:  # noqa: BLE001
         ok = False
     if not ok:
@@ -626,6 +737,9 @@ def judge_collapse(ctx, args, res, exc, diag, origin):
     eps = M.EPS32 if str(res.dtype) == 'float32' or yk == 'float32' else M.EPS64
     try:
         for k in range(nb):
+            if not fin[k]:
+                ctx.count('collapse.plateau_with_a_non_finite_point (not judged)')
+                continue
             pts = pxn[begin[k]:end[k]]
             below = pts < lown[k]
             above = ~(pts < highn[k])
@@ -636,14 +750,20 @@ def judge_collapse(ctx, args, res, exc, diag, origin):
                 case['point'] = _hexlist(px[begin[k]:end[k]][j:j + 1])
                 case['points'] = _hexlist(px[begin[k]:end[k]])
                 ctx.violation('collapse_point_outside_interval',
-                              f'plateau {k}: point {px[begin[k]:end[k]][j]!r} is not inside its half-open '
-                              f'interval [{low[k]!r}, {high[k]!r})', case,
+                              f'plateau {k}: point {px[begin[k]:end[k]][j]!r} of coordinate {cname!r} is not inside '
+                              f'its half-open interval [{low[k]!r}, {high[k]!r})', case,
                               edge='upper' if np.any(above) else 'lower', **keys)
                 return
+            if role == 'auxiliary':
+                ctx.count('collapse.plateaus_judged_along_an_auxiliary_coordinate')
             if lown[k] != pts.min() or highn[k] != M.next_above(np.asarray(px[begin[k]:end[k]]).max()):
                 ctx.count('collapse.interval_wider_than_[min,next_above(max))')
-            mean, meanabs = M.mean_ld(py[begin[k]:end[k]])
-            m = int(end[k] - begin[k])
+            keep = ~emask[begin[k]:end[k]]
+            m = int(np.count_nonzero(keep))
+            if m == 0:
+                ctx.count('collapse.plateau_with_every_point_masked (mean not defined, not judged)')
+                continue
+            mean, meanabs = M.mean_ld(py[begin[k]:end[k]][keep])
             tol = M.LD(max(8, m)) * M.LD(eps) * meanabs
             err = abs(M.LD(got[k]) - mean)
             if meanabs > 0:
@@ -653,11 +773,69 @@ def judge_collapse(ctx, args, res, exc, diag, origin):
                 case['got'] = repr(got[k])
                 case['expected_mean'] = repr(mean)
                 ctx.violation('collapse_mean',
-                              f'plateau {k} ({m} points): value {got[k]!r} but the mean of its points is '
-                              f'{float(mean)!r}', case, quantity='value', **keys)
+                              f'plateau {k} ({m} unmasked of {int(end[k] - begin[k])} points): value {got[k]!r} but '
+                              f'the mean of its points is {float(mean)!r}', case, quantity='value', **keys)
                 return
+            # variances: only where the result carries them; the mean of m independent readings has the
+            # variance sum(var_i) / m^2 (first-order propagation of a linear form: exact)
+            if pv is not None and gotv is not None:
+                vsum = pv[begin[k]:end[k]][keep].astype(M.LD).sum()
+                vexp = vsum / M.LD(m) / M.LD(m)
+                if np.isfinite(float(vexp)) and vexp >= 0:
+                    verr = abs(M.LD(gotv[k]) - vexp)
+                    ctx.event('collapse_plateaus:variance of the mean')
+                    if vexp > 0:
+                        ctx.dev('collapse.variance_error / (eps * variance)', float(verr / (M.LD(eps) * vexp)))
+                    if not verr <= M.LD(max(8, m)) * M.LD(eps) * vexp:
+                        case['plateau'] = k
+                        case['got_variance'] = repr(gotv[k])
+                        case['expected_variance'] = repr(vexp)
+                        ctx.violation('collapse_mean',
+                                      f'plateau {k} ({m} points): variance {gotv[k]!r} of the mean but '
+                                      f'sum(var)/m^2 = {float(vexp)!r}', case, quantity='variance', **keys)
+                        return
+            elif pv is not None:
+                ctx.count('collapse.variances_of_the_points_not_on_the_result (not judged)')
     except Exception:  # noqa: BLE001
         ctx.oracle_error('C19 collapse_plateaus model')
+
+
+def _forced_collapse(ctx, nb, begin, end, pxn, xk, role, unsorted, mask_cls, ec, pv, cform, origin):
+    if role == 'auxiliary':
+        ctx.hit('collapse along a coordinate that is not the dimension-coordinate')
+        ctx.hit('collapse along an auxiliary ' + xk + ' coordinate')
+    if cform != 'str':
+        ctx.hit('collapse: coord given as a str subclass (np.str_ / (str, Enum))')
+    if ec.variances is not None:
+        ctx.hit('collapse coordinate with variances')
+    if pv is not None:
+        ctx.hit('collapse of points with variances')
+    if mask_cls in ('event', 'both'):
+        ctx.hit('collapse of plateaus with masked points')
+    if mask_cls in ('bin', 'both'):
+        ctx.hit('collapse of masked plateaus')
+    for k in range(nb):
+        if not unsorted[k]:
+            continue
+        pts = pxn[begin[k]:end[k]]
+        m = len(pts)
+        ctx.hit('collapse coordinate not ascending within a plateau')
+        ctx.hit('collapse coordinate not ascending within a plateau (' + origin + ')')
+        ctx.hit('not ascending within a plateau: ' + xk)
+        imax = np.flatnonzero(pts == pts.max())
+        imin = np.flatnonzero(pts == pts.min())
+        if 0 not in imin and m - 1 not in imin:
+            ctx.hit('minimum of a plateau at an interior point only')
+        if 0 not in imax and m - 1 not in imax:
+            ctx.hit('maximum of a plateau at an interior point only')
+        if m - 1 in imin and 0 not in imin:
+            ctx.hit('minimum of a plateau at its last point')
+        if 0 in imax and m - 1 not in imax:
+            ctx.hit('maximum of a plateau at its first point')
+        if pts[0] > pts[-1]:
+            ctx.hit('first point of a plateau above its last point')
+        if pts.dtype.kind == 'f' and pts.max() < 0:
+            ctx.hit('not ascending within a plateau, all values negative')
 
 
 # -------------------------------------------------------- filter_in_phase ------
@@ -682,6 +860,13 @@ def _rows(da, dim):
         names.append(str(name))
         if n:
             cols.append(col(co.transpose([dim] + [d for d in co.dims if d != dim]).values))
+    for name in sorted(da.masks.keys(), key=str):
+        mk = da.masks[name]
+        if mk.dims != (dim,) or mk.bins is not None:
+            continue
+        names.append('mask:' + str(name))
+        if n:
+            cols.append(col(np.asarray(mk.values, dtype=np.uint8)))
     if not n:
         return [], names
     return [r.tobytes() for r in np.concatenate(cols, axis=1)], names
@@ -758,7 +943,7 @@ def judge_filter(ctx, args, res, exc, diag, origin):
         return
     if not ok:
         ctx.violation('filter_result_structure',
-                      'result is not a 1-d data array with the dtype, unit and coordinates of the input', case,
+                      'result is not a 1-d data array with the dtype, unit, coordinates and masks of the input', case,
                       **keys)
         return
     kept = np.zeros(n, dtype=bool)
@@ -782,6 +967,13 @@ def judge_filter(ctx, args, res, exc, diag, origin):
         ctx.count('ambiguous:filter.zeroth_divisor(|ref/f|<rtol).kept', int(np.count_nonzero(amb & kept)))
         ctx.count('ambiguous:filter.zeroth_divisor(|ref/f|<rtol).removed', int(np.count_nonzero(amb & ~kept)))
     _forced_filter(ctx, f, rv, dec, info, rt)
+    pm = [np.asarray(v_.values, dtype=bool) for v_ in fr.masks.values() if v_.dims == (dim,) and v_.bins is None]
+    if pm and n_dec:
+        ctx.hit('filter: frequencies with a per-element mask')
+        if np.any(kept & (dec == 1) & np.logical_or.reduce(pm)):
+            ctx.hit('filter: a masked element that is in phase (kept, with its flag)')
+    if dim in INTERNAL_DIMS and n_dec:
+        ctx.hit('filter: dimension named like a name used inside scipp / the package')
     if n_dec:
         ctx.case(('filter', fk, str(ref.dtype), str(fr.unit), _rtol_band(rt),
                   'ref<0' if float(rv) < 0 else 'ref>0', 'mixed' if np.any(dec == 1) and np.any(dec == -1)
@@ -873,6 +1065,7 @@ def install_monitors(tr: Tracer, ctx, origin=None):
             try:
                 args = dict(ev.args)
                 if ev.pre is not None:
+                    args['passed object'] = args.get(name)     # layout classes only (a copy re-packs the bins)
                     args[name] = ev.pre
                 judge(ctx, args, ev.result, ev.exc, diag, origin['v'])
             except Exception:  # noqa: BLE001  (a monitor must never raise into the code it watches)
@@ -1459,6 +1652,188 @@ def tie_cases(rng):
     return out
 
 
+# ---- collapse along every per-point coordinate; calling conventions; second use ------------------------
+# collapse_plateaus(..., coord=<name>) forms the interval of ANY per-point coordinate the plateaus carry.  Only the
+# dimension-coordinate is ordered; every other one (a phase, a temperature, a set point, a second clock) takes
+# its values in any order inside a plateau.  The enumerated part presents every dtype kind x every shape of
+# the values inside a plateau.
+AUX_COLLAPSE_KINDS = ('float64', 'float32', 'int64', 'int32', 'datetime64', 'float64+var')
+AUX_PATTERNS = ('random', 'descending', 'peak_inside', 'valley_inside', 'max_first_min_last', 'negative',
+                'constant', 'ascending')
+
+
+def _level_base(rng, xk, yk, dim=None, variances=False, n_levels=3):
+    """Levels of 3..9 points with grid noise far below the tolerance, one far-away point between two levels,
+    irregular ascending coordinate steps.  Returns (da, kw, levels=[(start, length)])."""
+    dim = _pick(rng, DIMS) if dim is None else dim
+    lens = [int(_pick(rng, [3, 4, 5, 6, 9])) for _ in range(n_levels)]
+    vals, levels = [], []
+    for i, ln in enumerate(lens):
+        levels.append((len(vals), ln))
+        vals += [64 * (2 * i + 1) * (-1) ** i + int(rng.integers(-1, 2)) for _ in range(ln)]
+        if i < len(lens) - 1:
+            vals.append(4000 * (i + 1))
+    k = np.array(vals, dtype=np.int64)
+    n = len(k)
+    jx = np.concatenate([[0], np.cumsum(rng.choice([1, 2, 3, 7], size=n - 1))]).astype(np.int64)
+    if xk in ('float64', 'float32'):
+        h = 2.0 ** int(rng.integers(-6, 7))
+        cu = _pick(rng, COORD_UNITS)
+        xvar = sc.array(dims=[dim], values=(float(rng.integers(-500, 500)) * h + jx * h).astype(xk), unit=cu, dtype=xk)
+    elif xk == 'int64':
+        h = int(_pick(rng, [1, 2, 10]))
+        cu = _pick(rng, COORD_UNITS)
+        xvar = sc.array(dims=[dim], values=int(rng.integers(-10**6, 10**6)) + jx * h, unit=cu, dtype='int64')
+    else:
+        h = int(_pick(rng, [1, 5, 250]))
+        cu = _pick(rng, DT_UNITS)
+        x0 = {'ns': 1_700_000_000_000_000_000, 'us': 1_700_000_000_000_000, 'ms': 1_700_000_000_000,
+              's': 1_700_000_000}[cu] + int(rng.integers(-10**6, 10**6))
+        xvar = sc.array(dims=[dim], values=(x0 + jx * h).astype(f'datetime64[{cu}]'), unit=cu)
+    du = _pick(rng, DATA_UNITS)
+    if yk == 'int64':
+        g = 1
+        yv = k.copy()
+    else:
+        g = 2.0 ** int(rng.integers(-10, 6))
+        yv = (k.astype(np.float64) * g).astype(yk)
+    var = (rng.random(n) + 0.5).astype(yk) if variances and yk != 'int64' else None
+    da = sc.DataArray(sc.array(dims=[dim], values=yv, variances=var, unit=du, dtype=yk), coords={dim: xvar})
+    # noise of +-1 grid unit over steps of at least h: slopes up to 2 g/h, total drift up to 2 g/h; jumps are
+    # at least 3000 g over at most 7 h.  All exactly representable (dyadic grid).
+    atol = sc.scalar(8.0 * float(g) / float(h), unit=sc.Unit(du) / sc.Unit(cu))
+    return da, {'atol': atol, 'min_n_points': int(_pick(rng, [1, 2, 3]))}, levels
+
+
+def _pattern_values(rng, pattern, n, levels):
+    """Integer shape of an auxiliary coordinate: inside every level the values follow ``pattern``."""
+    q = rng.integers(-50, 50, size=n)
+    for a, ln in levels:
+        r = rng.permutation(ln) * int(_pick(rng, [1, 3])) + int(rng.integers(-20, 20))
+        if pattern == 'random':
+            v = r
+            if np.all(v[1:] >= v[:-1]):
+                v = v[::-1]
+        elif pattern == 'descending':
+            v = np.sort(r)[::-1]
+        elif pattern == 'ascending':
+            v = np.sort(r)
+        elif pattern == 'peak_inside':
+            v = np.sort(r)
+            v = np.concatenate([v[:-1][::2], v[-1:], v[:-1][1::2][::-1]]) if ln >= 3 else v[::-1]
+            if rng.random() < 0.5:          # first point above / below the last one
+                v = v[::-1]
+        elif pattern == 'valley_inside':
+            v = np.sort(r)[::-1]
+            v = np.concatenate([v[:-1][::2], v[-1:], v[:-1][1::2][::-1]]) if ln >= 3 else v
+        elif pattern == 'max_first_min_last':
+            v = np.sort(r)
+            mid = rng.permutation(v[1:-1])
+            v = np.concatenate([v[-1:], mid, v[:1]])
+        elif pattern == 'negative':
+            v = -(np.abs(r) + 1)
+            if np.all(v[1:] >= v[:-1]):
+                v = v[::-1]
+        else:  # constant
+            v = np.full(ln, int(r[0]))
+        q[a:a + ln] = v
+    return q.astype(np.int64)
+
+
+def _aux_of_kind(rng, kind, q, dim, offset=True):
+    n = len(q)
+    if kind in ('float64', 'float32', 'float64+var'):
+        h = 2.0 ** int(rng.integers(-8, 5))
+        off = float(_pick(rng, [0.0, 0.0, 1.0, -3.5, 1000.0]))
+        v = q.astype(np.float64) * h + (off if offset else 0.0)
+        if kind == 'float64+var':
+            return sc.array(dims=[dim], values=v, variances=rng.random(n) + 0.1, unit='deg')
+        return sc.array(dims=[dim], values=v.astype(kind), unit=_pick(rng, ['deg', 'K', 'dimensionless', 'Hz']),
+                        dtype=kind)
+    if kind in ('int64', 'int32'):
+        return sc.array(dims=[dim], values=q * int(_pick(rng, [1, 7])) + (int(_pick(rng, [0, 0, -40, 10**6]))
+                                                                         if offset else 0),
+                        unit=_pick(rng, ['s', 'dimensionless', 'us']), dtype=kind)
+    u = _pick(rng, DT_UNITS)
+    return sc.array(dims=[dim], values=(1_650_000_000 + q * int(_pick(rng, [1, 60]))).astype(f'datetime64[{u}]'),
+                    unit=u)
+
+
+def aux_collapse_cases(rng, index):
+    """Two series per shard (the four kinds of dimension-coordinate rotate with the shard index); every series
+    carries one auxiliary per-point coordinate per (dtype kind, pattern) and, when its dimension has another
+    name, one named 'time' (the default of ``coord``)."""
+    out = []
+    for j in range(2):
+        xk = X_KINDS[(2 * index + j) % 4]
+        yk = _pick(rng, _TIE_Y[xk])
+        da, kw, levels = _level_base(rng, xk, yk, variances=bool(rng.random() < 0.3))
+        dim, n = da.dim, da.sizes[da.dim]
+        names = []
+        for kind in AUX_COLLAPSE_KINDS:
+            for pat in AUX_PATTERNS:
+                name = f'{pat} {kind}'
+                da.coords[name] = _aux_of_kind(rng, kind, _pattern_values(rng, pat, n, levels), dim,
+                                               offset=pat != 'negative')
+                names.append(name)
+        for name in ('phase', 'temperature', 'time'):
+            if name != dim:
+                da.coords[name] = _aux_of_kind(rng, _pick(rng, AUX_COLLAPSE_KINDS),
+                                               _pattern_values(rng, _pick(rng, AUX_PATTERNS[:6]), n, levels), dim)
+                names.append(name)
+        if rng.random() < 0.5:
+            kw['min_n_points'] = 3    # only the levels
+        out.append((da, kw, names))
+    return out
+
+
+def rework_bins(rng, da, cname):
+    """Hand-built bins in the other forms collapse_plateaus may be given: the named coordinate in no particular
+    order inside the bins, a second per-point coordinate, plateaus that are not in buffer order, points that
+    belong to no plateau, masked points, masked plateaus, points with variances."""
+    c = da.bins.constituents
+    buf = c['data'].copy()
+    begin = np.asarray(c['begin'].values).astype(np.int64).copy()
+    end = np.asarray(c['end'].values).astype(np.int64).copy()
+    pdim = da.dim
+    nb, ne = len(begin), buf.sizes['event']
+    tags = []
+    if ne and rng.random() < 0.5:
+        v = buf.coords[cname].values
+        for b0, e0 in zip(begin.tolist(), end.tolist(), strict=True):
+            v[b0:e0] = v[b0:e0][rng.permutation(e0 - b0)]
+        tags.append('unsorted')
+    if rng.random() < 0.3:
+        other = _pick(rng, [nm for nm in ('time', 't', 'x', 'phase') if nm != cname])
+        buf.coords[other] = _aux_of_kind(rng, _pick(rng, AUX_COLLAPSE_KINDS), rng.integers(-99, 99, size=ne), 'event')
+        if rng.random() < 0.5:
+            cname = other
+        tags.append('second_coord')
+    if buf.dtype != sc.DType.int64 and rng.random() < 0.25:
+        buf.variances = (rng.random(ne) + 0.25).astype(buf.values.dtype)
+        tags.append('variances')
+    if rng.random() < 0.25:
+        buf.masks[_pick(rng, ['bad', cname, pdim])] = sc.array(dims=['event'], values=rng.random(ne) < 0.4, unit=None)
+        tags.append('event_mask')
+    if ne and rng.random() < 0.2:      # points in front of / between the plateaus that belong to none
+        gap = min(int(rng.integers(1, 4)), ne)
+        buf = sc.concat([buf['event', :gap], buf], 'event')
+        begin, end = begin + gap, end + gap
+        tags.append('gap')
+    if nb > 1 and rng.random() < 0.3:
+        perm = rng.permutation(nb)
+        begin, end = begin[perm], end[perm]
+        tags.append('order')
+    binned = sc.bins(begin=sc.array(dims=[pdim], values=begin, unit=None, dtype='int64'),
+                     end=sc.array(dims=[pdim], values=end, unit=None, dtype='int64'), dim='event', data=buf)
+    out = sc.DataArray(binned, coords={pdim: sc.arange(pdim, nb, unit=None)})
+    if rng.random() < 0.15:
+        out.masks[_pick(rng, ['m', pdim, cname])] = sc.array(dims=[pdim], values=rng.random(nb) < 0.5, unit=None)
+        tags.append('bin_mask')
+    return out, cname, '+'.join(tags) or 'as built'
+
+
+
 def gen_frequencies(rng):
     """Direct filter_in_phase case."""
     fk = _pick(rng, ['float64', 'float64', 'float64', 'float64', 'int64', 'float32'])
@@ -1594,8 +1969,11 @@ def plan(tier, seed):
 def requirements(tier):
     k = 1 if tier == 'quick' else 40
     return {
-        'events': {'find_plateaus': 1200 * k, 'collapse_plateaus': 1200 * k, 'filter_in_phase': 1200 * k},
+        'events': {'find_plateaus': 1200 * k, 'collapse_plateaus': 1200 * k, 'filter_in_phase': 1200 * k,
+                   'collapse_plateaus:variance of the mean': 100 * k},
         'counters': {'filter.elements_decided': 10000 * k,
+                     'collapse.plateaus_judged_along_an_auxiliary_coordinate': 3000 * k,
+                     'find.refused:dimension-coordinate with variances (VariancesError)': 1,
                      'find.judged_with_coordinate_ties': 2500 if tier == 'quick' else 60000,
                      'find.judged_with_nan_data': 500 if tier == 'quick' else 12000},
         'forced': [
@@ -1627,6 +2005,37 @@ def requirements(tier):
             'NaN slope inside a returned plateau', 'plateau reaching min_n_points only across a NaN slope',
             'NaN data value inside a series', 'NaN data value at a coordinate tie',
             'infinite data value inside a series',
+            # collapse along any per-point coordinate
+            'collapse along a coordinate that is not the dimension-coordinate',
+            *['collapse along an auxiliary ' + k_ + ' coordinate' for k_ in COLLAPSE_X_KINDS],
+            'collapse coordinate int32', 'collapse coordinate with variances',
+            'collapse coordinate not ascending within a plateau',
+            'collapse coordinate not ascending within a plateau (pipeline)',
+            'collapse coordinate not ascending within a plateau (direct)',
+            *['not ascending within a plateau: ' + k_ for k_ in COLLAPSE_X_KINDS],
+            'minimum of a plateau at an interior point only', 'maximum of a plateau at an interior point only',
+            'minimum of a plateau at its last point', 'maximum of a plateau at its first point',
+            'first point of a plateau above its last point', 'not ascending within a plateau, all values negative',
+            'collapse: plateaus not in buffer order', 'collapse: points in the buffer that belong to no plateau',
+            'collapse of points with variances', 'collapse of plateaus with masked points',
+            'collapse of masked plateaus',
+            'find: the dimension-coordinate is not the only per-point coordinate',
+            # calling conventions, stand-in types, names, variances, masks, second use
+            'find_plateaus with every argument by keyword', 'collapse_plateaus with every argument by keyword',
+            'filter_in_phase with every argument by keyword',
+            'collapse: coord given as a str subclass (np.str_ / (str, Enum))',
+            'plateau_dim given as a str subclass (np.str_ / (str, Enum))',
+            'min_n_points as numpy integer (int64)', 'min_n_points as numpy integer (int32)',
+            'min_n_points as an int subclass (IntEnum member)',
+            'find: data dimension named like a name used inside scipp / the package',
+            'filter: dimension named like a name used inside scipp / the package',
+            'find: data with variances (ignored for the comparison)', 'find: atol with a variance',
+            'filter: frequencies with a per-element mask',
+            'filter: a masked element that is in phase (kept, with its flag)',
+            'second use: filtered result filtered again',
+            'second use: the same series searched again, and again after refused calls',
+            'second use: the same plateaus collapsed again along another coordinate, after display / copies',
+            'second use: the points of a returned plateau searched again',
         ],
     }
 
@@ -1675,6 +2084,18 @@ def run(shard, ctx):
                 collapsed = collapse_plateaus(plateaus, coord=meta['dim'])
             except Exception:  # noqa: BLE001
                 pass
+            # ... and along (up to two of) the other per-point coordinates the plateaus carry, whatever their dtype
+            try:
+                others = [str(nm) for nm, co in plateaus.bins.coords.items()
+                          if nm != meta['dim'] and nm != plateaus.dim]
+            except Exception:  # noqa: BLE001
+                others = []
+            r8 = stream(8, i)
+            for nm in (list(r8.permutation(others))[:2] if others else []):
+                try:
+                    collapse_plateaus(plateaus, coord=str(nm))
+                except Exception:  # noqa: BLE001  (judged or counted by the monitor)
+                    pass
             if collapsed is None or collapsed.sizes[collapsed.dim] == 0:
                 continue
             # the collapsed values as frequencies against a reference derived from one of them
@@ -1722,6 +2143,11 @@ def run(shard, ctx):
                     except Exception:  # noqa: BLE001
                         pass
         origin['v'] = 'direct'
+        try:
+            run_usage(ctx, shard, stream, origin)
+        except Exception:  # noqa: BLE001
+            ctx.oracle_error('C19 usage sequences (harness)')
+        origin['v'] = 'direct'
         for i in range(shard['filters']):
             da, ref, rtol = gen_frequencies(stream(1, i))
             try:
@@ -1734,12 +2160,188 @@ def run(shard, ctx):
         for i in range(shard['bins']):
             da, cname, edge = gen_bins(stream(2, i))
             ctx.count('bins_edge:' + edge)
+            if i % 2:
+                da, cname, form = rework_bins(stream(7, i), da, cname)
+                for tag in form.split('+'):
+                    ctx.count('bins_form:' + tag)
             try:
                 collapse_plateaus(da, coord=cname)
             except Exception:  # noqa: BLE001
                 pass
     for name in ('_derive', '_check_total_tolerance', '_next_highest', '_is_approximate_multiple'):
         ctx.count('helper.' + name, tr.counts.get(name, 0))
+
+
+def run_usage(ctx, shard, stream, origin):
+    """Deterministic part of every shard: collapse along every per-point coordinate; every calling convention
+    of the three signatures; numpy / enum stand-ins for the documented int / str arguments; data dimensions
+    named like names used inside the implementation; variances and masks on the input; second use of objects
+    and results, calls repeated after an exception, display / copies between two calls."""
+    import copy
+    import enum
+
+    from scippneutron.chopper import collapse_plateaus, filter_in_phase, find_plateaus
+
+    class Count(enum.IntEnum):
+        two = 2
+        three = 3
+
+    class Name(str, enum.Enum):
+        time = 'time'
+        out = 'pl'
+        phase = 'phase'
+
+    def call(f, *a, **k):
+        try:
+            return f(*a, **k)
+        except Exception:  # noqa: BLE001  (judged or counted by the monitor)
+            return None
+
+    def with_aux(rng, da, levels, names=('phase',)):
+        n = da.sizes[da.dim]
+        for nm in names:
+            if nm != da.dim:
+                da.coords[nm] = _aux_of_kind(rng, _pick(rng, AUX_COLLAPSE_KINDS[:5]),
+                                             _pattern_values(rng, _pick(rng, AUX_PATTERNS[:6]), n, levels), da.dim)
+        return da
+
+    # ---- (K) every per-point coordinate of the plateaus, each dtype kind x each order inside a plateau
+    for da, kw, _names in aux_collapse_cases(stream(9, 0), shard['index']):
+        origin['v'] = 'direct'
+        pl = call(find_plateaus, da, **kw)
+        if pl is None:
+            ctx.count('usage:aux matrix series refused')
+            continue
+        origin['v'] = 'pipeline'
+        for nm in [str(k_) for k_ in pl.bins.coords.keys()]:
+            call(collapse_plateaus, pl, coord=nm)
+        if 'time' in pl.bins.coords:
+            call(collapse_plateaus, pl)                       # the default of coord
+            ctx.count('usage:collapse with the default coord')
+    origin['v'] = 'usage'
+    rng = stream(9, 1)
+    # ---- calling conventions and stand-in argument types
+    da, kw, levels = _level_base(rng, 'float64', 'float64', dim='time')
+    da = with_aux(rng, da, levels)
+    pl = call(find_plateaus, data=da, atol=kw['atol'], min_n_points=kw['min_n_points'])
+    if pl is not None:
+        ctx.hit('find_plateaus with every argument by keyword')
+        if call(collapse_plateaus, plateaus=pl, coord='phase') is not None:
+            ctx.hit('collapse_plateaus with every argument by keyword')
+        call(collapse_plateaus, pl, coord=np.str_('phase'))
+        call(collapse_plateaus, pl, coord=Name.phase)
+        call(collapse_plateaus, pl, coord=Name.time)
+    for mn in (np.int64(2), np.int32(3), Count.two, Count.three, sc.index(2), sc.scalar(np.int32(3), unit=None)):
+        call(find_plateaus, da, atol=kw['atol'], min_n_points=mn)
+    for pd in (np.str_('pl'), Name.out, Name.phase):
+        pl2 = call(find_plateaus, da, atol=kw['atol'], min_n_points=2, plateau_dim=pd)
+        if pl2 is not None and pd != 'phase':
+            call(collapse_plateaus, pl2, coord='phase')
+    # ---- data dimensions named like names used inside the implementation / scipp's binning
+    names = list(INTERNAL_DIMS)
+    for d in [names[(shard['index'] * 5 + j) % len(names)] for j in range(5)] + ['plateau', 'event']:
+        xk = _pick(rng, ['float64', 'int64', 'datetime64'])
+        da2, kw2, lv2 = _level_base(rng, xk, 'float64', dim=d)
+        da2 = with_aux(rng, da2, lv2, names=('phase', 'event', 'time'))
+        for extra in ({}, {'plateau_dim': 'pl'}, {'plateau_dim': 'event'}):
+            pl2 = call(find_plateaus, da2, **kw2, **extra)
+            if pl2 is None:
+                continue
+            for nm in (d, 'phase', 'event', 'time'):
+                if nm in pl2.bins.coords:
+                    call(collapse_plateaus, pl2, coord=nm)
+        fr = sc.DataArray(sc.array(dims=[d], values=[14.0, 28.0, 3.0, 7.0, 15.0, 0.0, -42.0], unit='Hz'),
+                          coords={d: sc.arange(d, 7.0, unit='s')})
+        call(filter_in_phase, fr, reference=sc.scalar(14.0, unit='Hz'), rtol=sc.scalar(0.01))
+    # ---- variances: on the data (ignored for the comparison, propagated to the mean), on the tolerance, on the
+    # dimension-coordinate (observed: refused)
+    for xk, yk in (('float64', 'float64'), ('datetime64', 'float64'), ('float32', 'float32'), ('int64', 'float64')):
+        da3, kw3, lv3 = _level_base(rng, xk, yk, variances=True)
+        da3 = with_aux(rng, da3, lv3)
+        pl3 = call(find_plateaus, da3, **kw3)
+        if pl3 is not None:
+            call(collapse_plateaus, pl3, coord=da3.dim)
+            call(collapse_plateaus, pl3, coord='phase')
+        a = kw3['atol']
+        call(find_plateaus, da3, atol=sc.scalar(a.value, variance=(a.value / 3) ** 2, unit=a.unit),
+             min_n_points=kw3['min_n_points'])
+        if xk in ('float64', 'float32'):
+            da4 = da3.copy()
+            xc = da4.coords[da4.dim]
+            da4.coords[da4.dim] = sc.array(dims=xc.dims, values=xc.values, variances=np.full(xc.shape, 2.0 ** -40,
+                                           dtype=xc.values.dtype), unit=xc.unit, dtype=xc.dtype)
+            call(find_plateaus, da4, **kw3)
+    # ---- masks: per-point (inside the plateaus: their readings differ from the others), scalar, per-plateau
+    for xk in ('float64', 'int64', 'datetime64'):
+        da5, kw5, lv5 = _level_base(rng, xk, _pick(rng, ['float64', 'int64']))
+        da5 = with_aux(rng, da5, lv5)
+        n5 = da5.sizes[da5.dim]
+        m = np.zeros(n5, dtype=bool)
+        for a0, ln in lv5:
+            m[a0 + int(rng.integers(0, ln))] = True
+            if rng.random() < 0.3:
+                m[a0:a0 + ln] = True          # a plateau of masked points only
+        da5.masks['invalid'] = sc.array(dims=[da5.dim], values=m, unit=None)
+        da5.masks[_pick(rng, ['phase', da5.dim, 'plateau'])] = sc.array(dims=[da5.dim], values=rng.random(n5) < 0.2,
+                                                                         unit=None)
+        if rng.random() < 0.5:
+            da5.masks['whole'] = sc.scalar(False)
+        pl5 = call(find_plateaus, da5, **kw5)
+        if pl5 is None:
+            continue
+        call(collapse_plateaus, pl5, coord=da5.dim)
+        call(collapse_plateaus, pl5, coord='phase')
+        pl6 = pl5.copy()
+        pl6.masks[_pick(rng, ['skip', 'plateau', 'phase'])] = sc.array(
+            dims=[pl6.dim], values=np.arange(pl6.sizes[pl6.dim]) % 2 == 0, unit=None)
+        col = call(collapse_plateaus, pl6, coord='phase')
+        if col is not None:
+            call(filter_in_phase, col, reference=sc.scalar(64.0 * float(_pick(rng, [1.0, 0.5])), unit=col.unit)
+                 if str(col.dtype) == 'float64' else sc.scalar(64.0, unit=col.unit), rtol=sc.scalar(0.05))
+    fr = sc.DataArray(sc.array(dims=['t'], values=[14.0, 28.0, 3.0, 7.0, 15.0, 0.0, -42.0, 14.0 * 3.004], unit='Hz'),
+                      coords={'t': sc.arange('t', 8, unit='s')},
+                      masks={'m': sc.array(dims=['t'], values=[True, False, True, True, False, False, True, False]),
+                             't': sc.array(dims=['t'], values=rng.random(8) < 0.5), 'all': sc.scalar(False)})
+    kept = call(filter_in_phase, frequency=fr, reference=sc.scalar(14.0, unit='Hz'), rtol=sc.scalar(0.01))
+    if kept is not None:
+        ctx.hit('filter_in_phase with every argument by keyword')
+        # second use: the result filtered again (every element of it is in phase), the same input again
+        call(filter_in_phase, kept, reference=sc.scalar(14.0, unit='Hz'), rtol=sc.scalar(0.01))
+        call(filter_in_phase, fr, reference=sc.scalar(14.0, unit='Hz'), rtol=sc.scalar(0.01))
+        ctx.hit('second use: filtered result filtered again')
+    # ---- second use, calls after an exception, display / copies between two calls
+    da7, kw7, lv7 = _level_base(rng, _pick(rng, ['float64', 'int64', 'datetime64']), 'float64')
+    da7 = with_aux(rng, da7, lv7, names=('phase', 'temperature'))
+    bad = da7.copy()
+    bad.coords[bad.dim].values[...] = bad.coords[bad.dim].values[::-1].copy()        # not ascending: refused
+    call(find_plateaus, bad, **kw7)
+    drift = da7.copy()
+    drift.values[...] = np.arange(drift.sizes[drift.dim], dtype=np.float64)             # a ramp: drift guard
+    steepest = float(np.max(np.abs(M.slopes(np.asarray(drift.values), np.asarray(drift.coords[drift.dim].values)))))
+    call(find_plateaus, drift, atol=sc.scalar(steepest, unit=kw7['atol'].unit), min_n_points=1)
+    call(find_plateaus, da7, atol=sc.scalar(1.0, unit='kg'), min_n_points=2)           # wrong unit: refused
+    call(collapse_plateaus, da7, coord='phase')                                         # not binned: refused
+    pl7 = call(find_plateaus, da7, **kw7)
+    pl7b = call(find_plateaus, da7, **kw7)                                              # the same object again
+    if pl7 is not None and pl7b is not None:
+        ctx.hit('second use: the same series searched again, and again after refused calls')
+        call(collapse_plateaus, pl7, coord='no such coordinate')
+        c1 = call(collapse_plateaus, pl7, coord='phase')
+        for show in (repr, str, lambda v: v._repr_html_(), copy.copy, copy.deepcopy,
+                     lambda v: sc.identical(v, pl7b), lambda v: v == v, lambda v: v.bins.size(), lambda v: v.copy()):
+            call(show, pl7)
+        c2 = call(collapse_plateaus, pl7, coord='phase')
+        c3 = call(collapse_plateaus, copy.deepcopy(pl7), coord='temperature')
+        call(collapse_plateaus, pl7b['plateau', 1:] if pl7b.sizes['plateau'] > 1 else pl7b, coord='phase')
+        call(collapse_plateaus, pl7, coord=da7.dim)
+        if c1 is not None and c2 is not None and c3 is not None:
+            ctx.hit('second use: the same plateaus collapsed again along another coordinate, after display / copies')
+        # results fed back: one plateau (a slice of the input series) searched again; the collapsed plateaus filtered
+        inner = pl7['plateau', pl7.sizes['plateau'] - 1].value
+        if inner.sizes[inner.dim] >= 2 and call(find_plateaus, inner.copy(), **kw7) is not None:
+            ctx.hit('second use: the points of a returned plateau searched again')
+    origin['v'] = 'direct'
+
 
 
 def _descr(v):
